@@ -84,8 +84,20 @@ theorem wS4_step (b : Stmt) (c : Bool) (hb : CSpec (compile b) true c) (O : List
     (fun h => by rw [show ({ wS1 O s with cont := [], brk := [] } : CSt).atStart = (wS1 O s).atStart from rfl, hA1] at h; cases h)
     (fun _ => hA1)
   have hlr := B.hlt hlb
-  have F := (HeapExt.addfrontAll (wR b O s).1 (wIdx O s) (wR b O s).1 (wR b O s).2 (fun _ h => h)).step hlr.1
-  have hF := HeapExt.addfrontAll (wR b O s).1 (wIdx O s) (wR b O s).1 (wR b O s).2 (fun _ h => h)
+  have htg : 0 < (wR b O s).2.states.length → wIdx O s < (wR b O s).2.states.length := by
+    intro h0
+    cases hst : s.atStart with
+    | true => simpa [wIdx, enterState_start O s hst] using h0
+    | false =>
+      have e1 : (wS1 O s).states = s.states ++ [s.next] := by
+        simp [wS1, wS0, hst, enterState_nostart O s hst, CSt.newBlock, CSt.addfrontAll_states]
+      have hle : ({ wS1 O s with cont := [], brk := [] } : CSt).states.length ≤ (wR b O s).2.states.length :=
+        B.states_mono.length_le
+      simp only [wIdx, enterState_nostart O s hst]
+      rw [show ({ wS1 O s with cont := [], brk := [] } : CSt).states = (wS1 O s).states from rfl, e1] at hle
+      simp at hle; omega
+  have hF := HeapExt.addfrontAll (wR b O s).1 (wIdx O s) (wR b O s).1 (wR b O s).2 (fun _ h => h) htg
+  have F := hF.step hlr.1
   have BF : Step { wS1 O s with cont := [], brk := [] } [wBody O s] (wS3 b O s) (wR b O s).1 := B.trans hlb.1 F
   obtain ⟨dB, eB, rB⟩ := BF.brk_r
   obtain ⟨dC, eC, rC⟩ := BF.cont_r
